@@ -67,3 +67,24 @@ def run(ctx):
     ]
     ctx.outside = ["programs with more than 3 slots", "faults inside listeners (pub/sub) rather than event handlers"]
     ctx.crosshair(_conds(ctx.tier))
+    # ground obligations (no free variable, real threads): the handler fails with a BaseException-only type (the kind
+    # sys.exit() / KeyboardInterrupt raise).  The symbolic runs cannot see this class of fault: the stub that narrows the
+    # bare except of SimEvent.execute assumes exactly what is checked here.
+    from vf.driver import Obligation
+    n = 0
+    for st in (1, 2, 3):
+        for rm in ("start", "steps", "bounded"):
+            for fails in ([True, False], [False, True]):
+                env = {"VF_KINDS": "01", "VF_PARENTS": "-1,0", "VF_STRATEGY": st, "VF_RUNMODE": rm, "VF_VMAX": 3, "VF_PRIOSYM": 0,
+                       "VF_LOGLEVEL": -2, "VF_FAULTBASE": 1}
+                args = [[1, 1], [0, 0], fails, 3, 2 if rm == "bounded" else 0]
+                r = ctx.replay("c05", "h_fault", args, {}, env)
+                n += 1
+                if r.get("reproduced"):
+                    ctx.report_counterexample(f"handler fails with a BaseException-only type/strategy={st}/{rm}/faults={fails}", "ground",
+                                              "c05", "h_fault", args, {}, env)
+                    n = -1000
+    if n > 0:
+        ctx.add(Obligation("handlers failing with a BaseException-only type (like sys.exit / KeyboardInterrupt) are contained like any other "
+                           "fault: 3 strategies x 3 run modes x 2 fault positions on the real threaded simulator", "pass", "ground",
+                           f"{n} concrete runs (no free variable)", 0.0, n, None))
